@@ -122,6 +122,7 @@ func checkC05(ctx *Ctx, r *Report) {
 	c15ReferenceSiblings(ctx, r)
 	c07ReferenceByBareName(ctx, r)
 	c05FourthRound(ctx, r)
+	c01DefinitionIdentity(ctx, r)
 }
 
 // ---------------------------------------------------------------------------
